@@ -7,87 +7,9 @@ use crate::engine::*;
 use crate::findings::*;
 use crate::lattice::*;
 use crate::mach::*;
-use crate::pipe::*;
 use rayon::prelude::*;
 use serde_json::json;
 use std::sync::atomic::Ordering;
-
-fn flag_words(cin: u32) -> Vec<u16> {
-    F4.iter().map(|f| (f & !CF) | cin as u16).collect()
-}
-
-/// value-exhaustive sweep of one canonical register form
-fn sweep_values(rep: &Reporter, c: &Counters, i: &Instr, avals: &[u32], bvals: &[u32], site: &str) {
-    let chunks: Vec<&[u32]> = avals.chunks(16.max(avals.len() / 256)).collect();
-    chunks.par_iter().for_each_init(
-        || (Bench::new(0), Machine::new()),
-        |(bench, m), chunk| {
-            let mut p = match prepare(i) {
-                Ok(p) => p,
-                Err(e) => {
-                    c.block(format!("{} ({:?})", i.shape(), e));
-                    return;
-                }
-            };
-            let mut n = 0u64;
-            let mut since_audit = 0u32;
-            for a in chunk.iter() {
-                for b in bvals.iter() {
-                    for cin in 0..2u32 {
-                        for f in flag_words(cin) {
-                            let pre = make_state(i, *a, *b, f, 0, &p.dc, 0);
-                            let obs = diff_step(bench, m, &mut p, &pre, false);
-                            n += 1;
-                            since_audit += 1;
-                            if !obs.mismatches.is_empty() {
-                                report_mismatches(
-                                    rep,
-                                    &p,
-                                    &pre,
-                                    &obs,
-                                    site,
-                                    &[("a", *a as i64), ("b", *b as i64), ("cin", cin as i64), ("w", i.operands()[0].width().unwrap().bits() as i64)],
-                                    (*a + *b) as u64,
-                                );
-                            }
-                            if since_audit >= 4096 {
-                                since_audit = 0;
-                                if let Some((addr, g)) = bench.audit() {
-                                    rep.report(Viol {
-                                        site: site.to_string(),
-                                        field: "mem".into(),
-                                        vars: vec![],
-                                        got_val: Some(g as i64),
-                                        expected: "memory untouched by a register-only instruction".into(),
-                                        got: format!("[0x{:05X}]=0x{:02X} (within a batch of 4096 executions ending at a={:#x} b={:#x})", addr, g, a, b),
-                                        case: case_json(&p, &pre),
-                                        weight: 0,
-                                    });
-                                }
-                            }
-                        }
-                    }
-                }
-            }
-            if let Some((addr, g)) = bench.audit() {
-                rep.report(Viol {
-                    site: site.to_string(),
-                    field: "mem".into(),
-                    vars: vec![],
-                    got_val: Some(g as i64),
-                    expected: "memory untouched by a register-only instruction".into(),
-                    got: format!("[0x{:05X}]=0x{:02X}", addr, g),
-                    case: json!({"src": p.src}),
-                    weight: 0,
-                });
-            }
-            c.add_exec(n);
-            c.states.fetch_add(n, Ordering::Relaxed);
-        },
-    );
-    c.shapes.fetch_add(1, Ordering::Relaxed);
-    c.sample(json!({"instr": render_instr(i), "a_values": avals.len(), "b_values": bvals.len(), "flag_words": 8}));
-}
 
 /// all operand forms of the 8 mnemonics
 pub fn all_forms(thorough: bool) -> Vec<Instr> {
@@ -157,63 +79,49 @@ pub fn with_imm(i: &Instr, b: u32, w: W) -> Instr {
 fn sweep_forms(rep: &Reporter, c: &Counters, forms: &[Instr], thorough: bool) {
     let bvals = if thorough { b8() } else { b8_small() };
     let wvals = if thorough { w16() } else { w16_small() };
-    forms.par_iter().for_each_init(
-        || (Bench::new(0), Machine::new()),
-        |(bench, m), i| {
-            let w = i.operands()[0].width().or(i.operands().get(1).and_then(|o| o.width())).unwrap();
-            let vals: &Vec<u32> = if w == W::B { &bvals } else { &wvals };
-            let has_imm = matches!(i, Instr::Bin(_, _, Opnd::Imm(_)));
-            let unary = matches!(i, Instr::Un(..));
-            let site = i.shape();
-            let mut n = 0u64;
-            // without an immediate the program is prepared once
-            let mut prepared: Option<Prepared> = None;
-            let bset: Vec<u32> = if unary { vec![0] } else { vals.clone() };
-            for b in bset.iter() {
-                let ins = if has_imm { with_imm(i, *b, w) } else { i.clone() };
-                if prepared.is_none() || has_imm {
-                    prepared = match prepare(&ins) {
-                        Ok(p) => Some(p),
-                        Err(e) => {
-                            c.block(format!("{}: {:?}", site, e));
-                            return;
-                        }
-                    };
-                }
-                let p = prepared.as_mut().unwrap();
-                for a in vals.iter() {
-                    for cin in 0..2u32 {
-                        let f = if (a + b) % 2 == 0 { 0xF000u16 } else { 0x0AD4 } | cin as u16;
-                        for bg in [0u8] {
-                            let pre = make_state(&ins, *a, *b, f, (*a as u16).wrapping_mul(7), &p.dc, bg);
-                            let obs = diff_step(bench, m, p, &pre, true);
-                            n += 1;
-                            c.outcome(&exec_label(&obs.exec));
-                            if !obs.mismatches.is_empty() {
-                                report_mismatches(
-                                    rep,
-                                    p,
-                                    &pre,
-                                    &obs,
-                                    &site,
-                                    &[("a", *a as i64), ("b", *b as i64), ("cin", cin as i64), ("w", w.bits() as i64)],
-                                    (*a + *b) as u64 + 1000,
-                                );
-                            }
-                        }
+    forms.par_iter().for_each(|i| with_worker(|wk| {
+        let w = i.operands()[0].width().or(i.operands().get(1).and_then(|o| o.width())).unwrap();
+        let vals: &Vec<u32> = if w == W::B { &bvals } else { &wvals };
+        let has_imm = matches!(i, Instr::Bin(_, _, Opnd::Imm(_)));
+        let unary = matches!(i, Instr::Un(..));
+        let site = i.shape();
+        let mut prepared: Option<Prepared> = None;
+        let bset: Vec<u32> = if unary { vec![0] } else { vals.clone() };
+        for b in bset.iter() {
+            let ins = if has_imm { with_imm(i, *b, w) } else { i.clone() };
+            if prepared.is_none() || has_imm {
+                prepared = match prepare(&ins) {
+                    Ok(p) => Some(p),
+                    Err(e) => {
+                        c.block(format!("{}: {:?}", site, e));
+                        return;
                     }
+                };
+            }
+            let p = prepared.as_mut().unwrap();
+            for a in vals.iter() {
+                for cin in 0..2u32 {
+                    let f = if (a + b) % 2 == 0 { 0xF000u16 } else { 0x0AD4 } | cin as u16;
+                    let pre = make_state(&ins, *a, *b, f, (*a as u16).wrapping_mul(7), &p.dc, 0);
+                    wk.case(
+                        rep,
+                        c,
+                        p,
+                        &pre,
+                        &site,
+                        &[("a", *a as i64), ("b", *b as i64), ("cin", cin as i64), ("w", w.bits() as i64)],
+                        (*a + *b) as u64 + 1000,
+                        true,
+                    );
                 }
             }
-            if n > 0 {
-                c.shapes.fetch_add(1, Ordering::Relaxed);
-                c.add_exec(n);
-                c.states.fetch_add(n, Ordering::Relaxed);
-                if let Some(p) = prepared.as_ref() {
-                    c.sample(json!({"source_line": render_instr(&p.instr), "emitted": p.line, "shape": site}));
-                }
-            }
-        },
-    );
+        }
+        c.shapes.fetch_add(1, Ordering::Relaxed);
+        wk.flush(c);
+        if let Some(p) = prepared.as_ref() {
+            c.sample(json!({"source_line": render_instr(&p.instr), "emitted": p.line, "shape": site}));
+        }
+    }));
 }
 
 pub fn run(tier: &Tier) -> i32 {
